@@ -254,6 +254,70 @@ pub fn decode(d: &mut crate::dec::Dec) -> Case {
     Case { tasks, tua, analysis, blocking, limit, wrap }
 }
 
+/// exhaustive stage: every pair of sporadic tasks from a tiny parameter grid, every analysis, both
+/// choices of the analysed task, limits huge / = L / L-1
+fn exhaustive(tier: Tier, _seed: u64) -> ExtraResult {
+    let mut r = ExtraResult { exhaustive: true, replay_subcheck: "equations", ..Default::default() };
+    // (period, jitter, wcet, deadline, last-segment selector)
+    let (ts_, js, cs, ds): (Vec<u64>, Vec<u64>, Vec<u64>, Vec<u64>) = tier.pick(
+        (vec![2, 3, 5], vec![0, 1, 4], vec![1, 2], vec![1, 3, 6]),
+        (vec![2, 3, 4, 5, 7], vec![0, 1, 2, 4, 6, 9], vec![1, 2, 3], vec![1, 2, 3, 5, 8]),
+    );
+    let mut singles: Vec<TaskSpec> = vec![];
+    for &t in &ts_ {
+        for &j in &js {
+            for &c in &cs {
+                for &dl in &ds {
+                    singles.push(TaskSpec {
+                        arr: ArrSpec::Sporadic { t, j },
+                        wcet: c,
+                        prio: 0,
+                        deadline: dl,
+                        segs: if c >= 2 { vec![c - 1, 1] } else { vec![c] },
+                        max_np: c.min(2),
+                    });
+                }
+            }
+        }
+    }
+    for a in &singles {
+        for b in &singles {
+            for prio_b in [0u32, 1] {
+                let mut t1 = a.clone();
+                let mut t2 = b.clone();
+                t1.prio = 1;
+                t2.prio = prio_b;
+                let tasks = vec![t1, t2];
+                for analysis in ALL_ANALYSES {
+                    if prio_b == 1 && !analysis.is_fp() {
+                        continue;
+                    }
+                    for limit in [LimitMode::Huge, LimitMode::AtL, LimitMode::BelowL] {
+                        let c = Case { tasks: tasks.clone(), tua: 0, analysis, blocking: (a.wcet + b.deadline) % 3, limit, wrap: Wrap::Plain };
+                        r.evaluations += 1;
+                        match check(&c) {
+                            Ok(o) => {
+                                if o.nontrivial {
+                                    r.nontrivial += 1;
+                                }
+                            }
+                            Err(msg) => {
+                                r.failure = Some((serde_json::to_value(&c).unwrap(), msg));
+                                return r;
+                            }
+                        }
+                    }
+                }
+            }
+        }
+    }
+    r.note = format!(
+        "every ordered pair of sporadic tasks with T in {:?}, J in {:?}, WCET in {:?}, D in {:?} (two segments, last = 1), lower or equal priority of the second task, all nine analyses, limits huge / = L / L-1: crate vs. naive evaluation over every offset",
+        ts_, js, cs, ds
+    );
+    r
+}
+
 pub fn def() -> PropertyDef {
     PropertyDef {
         id: "C06",
@@ -264,6 +328,6 @@ pub fn def() -> PropertyDef {
             "RBFs are black boxes here (steps/values are C10/C11/C16's business); direct ArrivalCurvePrefix models are excluded (known finding C11/acp-steps-leading-zero)".into(),
         ],
         subchecks: vec![subcheck("equations", (1500, 60_000), strategy, check).with_decoder(decode, check)],
-        extra: None,
+        extra: Some(Box::new(exhaustive)),
     }
 }
